@@ -337,6 +337,14 @@ fn record(shared: &Mutex<Shared>, case: &Case, r: &ChildResult, unit: &str, shri
         s.samples.push(json!({"case": case, "verdict": format!("{:?}", r.verdict), "report": r.report, "stats": r.stats}));
     }
     if let Verdict::Inconclusive(k) = &r.verdict {
+        if s.inconclusive < 5 {
+            // keep a few for harness debugging (never evidence of anything)
+            let _ = std::fs::create_dir_all("/verif/replays/found");
+            let _ = std::fs::write(
+                format!("/verif/replays/found/INCONCLUSIVE-{}-{:08x}.json", case.fam, h as u32),
+                serde_json::to_string(&json!({"case": case, "verdict": k, "detail": r.detail, "stats": r.stats})).unwrap(),
+            );
+        }
         s.inconclusive += 1;
         let k = k.split(' ').take(2).collect::<Vec<_>>().join(" ");
         *s.inconclusive_kinds.entry(k).or_insert(0) += 1;
